@@ -218,6 +218,11 @@ class _BuilderWalk:
             return None
         if isinstance(st, ast.Assign) and len(st.targets) == 1 and isinstance(st.targets[0], ast.Name):
             name = st.targets[0].id
+            lv = self._list_value(st.value, env) if isinstance(st.value, (ast.List, ast.ListComp, ast.BinOp)) else None
+            if lv is not None and not isinstance(st.value, ast.BinOp):
+                env[name] = ('srclist', lv)
+                self.param_of[name] = self.prov(st.value)
+                return None
             v = self._src_value(st.value, env)
             if v is not None:
                 env[name] = v
@@ -313,6 +318,22 @@ class _BuilderWalk:
                         v.component = ci if isinstance(st.value, ast.Tuple) else None
                         self.results.append(v)
             return 'stop'
+        if isinstance(st, ast.Expr) and isinstance(st.value, ast.Call) and isinstance(st.value.func, ast.Attribute) and \
+                st.value.func.attr in ('append', 'extend') and isinstance(st.value.func.value, ast.Name) and \
+                isinstance(env.get(st.value.func.value.id), tuple) and env[st.value.func.value.id][0] == 'srclist' and \
+                len(st.value.args) == 1:
+            nm = st.value.func.value.id
+            if st.value.func.attr == 'append':
+                v = self._src_value(st.value.args[0], env)
+                add = [('one', v)] if v is not None else None
+            else:
+                add = self._list_value(st.value.args[0], env)
+            if add is None:
+                env.pop(nm, None)
+            else:
+                env[nm] = ('srclist', list(env[nm][1]) + add)
+                self.param_of[nm] = self.param_of.get(nm, set()) | self.prov(st.value.args[0])
+            return None
         if isinstance(st, ast.Expr):
             self._scan_internal(st.value, env, guards)
             return None
@@ -325,8 +346,54 @@ class _BuilderWalk:
         return None
 
     # ---- values ----------------------------------------------------------------
+    def _list_value(self, e, env):
+        """A list of source lines -> [('one', segs) | ('rep', segs, iter ast, note)] | None."""
+        if isinstance(e, ast.List):
+            items = []
+            for x in e.elts:
+                v = self._src_value(x, env)
+                if v is None:
+                    return None
+                items.append(('one', v))
+            return items
+        if isinstance(e, ast.ListComp) and len(e.generators) == 1 and not e.generators[0].ifs:
+            g = e.generators[0]
+            for lv in [n.id for n in ast.walk(g.target) if isinstance(n, ast.Name)]:
+                self.param_of[lv] = self.prov(g.iter)
+            v = self._src_value(e.elt, env)
+            if v is None:
+                return None
+            return [('rep', v, g.iter, f'for {ast.unparse(g.target)} in {ast.unparse(g.iter)}')]
+        if isinstance(e, ast.BinOp) and isinstance(e.op, ast.Add):
+            a, b = self._list_value(e.left, env), self._list_value(e.right, env)
+            if a is not None and b is not None:
+                return a + b
+            return None
+        if isinstance(e, ast.Name) and isinstance(env.get(e.id), tuple) and env[e.id] and env[e.id][0] == 'srclist':
+            return list(env[e.id][1])
+        return None
+
+    def _join_lines(self, sep: str, items):
+        if sep.strip() != '':
+            return None             # only whitespace separators keep the token structure independent of the count
+        out = []
+        for i, it in enumerate(items):
+            if i:
+                out.append(Seg('text', sep))
+            if it[0] == 'one':
+                out += list(it[1])
+            else:
+                out.append(Seg('repeat', body=list(it[1]) + [Seg('text', sep)], count=it[2], note=it[3]))
+        return out
+
     def _src_value(self, e, env):
         """Source text value of a str-typed expression -> list[Seg] | None."""
+        if isinstance(e, ast.Call) and isinstance(e.func, ast.Attribute) and e.func.attr == 'join' and \
+                isinstance(e.func.value, ast.Constant) and isinstance(e.func.value.value, str) and len(e.args) == 1 and \
+                not isinstance(e.args[0], ast.ListComp):
+            items = self._list_value(e.args[0], env)
+            if items is not None:
+                return self._join_lines(e.func.value.value, items)
         if isinstance(e, ast.Constant) and isinstance(e.value, str):
             return [Seg('text', e.value)]
         if isinstance(e, ast.JoinedStr):
@@ -383,6 +450,14 @@ class _BuilderWalk:
                     if cur.text or cur.holes:
                         segs.append(cur)
                     segs += inl[0][0]
+                    cur = Seg('text', '')
+                    continue
+                if isinstance(x, ast.Name) and isinstance(env.get(x.id), list) and v.format_spec is None and \
+                        v.conversion == -1:
+                    # a local that holds template text itself (`op = 'check_timestamp_verify'`): part of the template
+                    if cur.text or cur.holes:
+                        segs.append(cur)
+                    segs += list(env[x.id])
                     cur = Seg('text', '')
                     continue
                 h = Hole(x, self.fi, self.prov(x))
